@@ -441,7 +441,7 @@ class Region(object):
             A list of HEALPix pixel numbers.
         """
         pd = []
-        for d in range(1, self.maxdepth):
+        for d in range(1, self.maxdepth+1):
             pd.extend(map(lambda x: int(4**(d+1) + x), self.pixeldict[d]))
         return sorted(pd)
 
